@@ -1,11 +1,11 @@
-use cosmwasm_std::{DepsMut, Env, Response, StdError, StdResult, SubMsg, Uint128};
+use cosmwasm_std::{Addr, DepsMut, Env, Response, StdError, StdResult, SubMsg, Uint128};
 
 use crate::{
     contract::INCREASE_POSITION_REPLY_ID,
     handle::internal_increase_position,
     messages::{
         execute_insurance_fund_withdrawal, execute_transfer, execute_transfer_from,
-        execute_transfer_to_insurance_fund, transfer_fees, withdraw,
+        execute_transfer_to_insurance_fund, transfer_fees, withdraw, withdraw_many,
     },
     querier::query_vamm_state,
     query::query_margin_ratio,
@@ -588,23 +588,24 @@ pub fn liquidate_reply(
         Uint128::zero()
     };
 
-    // any remaining margin goes to the insurance contract
+    // any remaining margin goes to the insurance contract, the fee to the liquidator; a dust position's fee
+    // can round down to nothing, and a zero-amount transfer is rejected by the token
+    let mut transfers: Vec<(Addr, Uint128)> = vec![];
     if !remain_margin.margin.is_zero() {
-        msgs.push(
-            execute_transfer(deps.storage, &config.insurance_fund, remain_margin.margin).unwrap(),
-        );
+        transfers.push((config.insurance_fund.clone(), remain_margin.margin));
+    }
+    if !liquidation_fee.is_zero() {
+        transfers.push((liquidator, liquidation_fee));
     }
 
-    // a dust position's fee can round down to nothing, and a zero-amount transfer is rejected by the token
-    if !liquidation_fee.is_zero() {
+    if !transfers.is_empty() {
         msgs.append(
-            &mut withdraw(
+            &mut withdraw_many(
                 deps.as_ref(),
                 env.clone(),
                 &mut state,
-                &liquidator,
+                &transfers,
                 config.eligible_collateral,
-                liquidation_fee,
                 pre_paid_shortfall,
             )
             .unwrap(),
@@ -696,19 +697,17 @@ pub fn partial_liquidation_reply(
     let mut messages: Vec<SubMsg> = vec![];
 
     if !liquidation_fee.is_zero() {
-        messages
-            .push(execute_transfer(deps.storage, &config.insurance_fund, liquidation_fee).unwrap());
-
-        // calculate token balance that should be remaining once
-        // insurance fees have been paid
+        // the insurance fund and the liquidator get half the penalty each
         messages.append(
-            &mut withdraw(
+            &mut withdraw_many(
                 deps.as_ref(),
                 env.clone(),
                 &mut state,
-                &liquidator,
+                &[
+                    (config.insurance_fund.clone(), liquidation_fee),
+                    (liquidator, liquidation_fee),
+                ],
                 config.eligible_collateral,
-                liquidation_fee,
                 Uint128::zero(),
             )
             .unwrap(),
